@@ -5,6 +5,7 @@
    The codec round trip itself is a premise here ([roundtrips c defMode chunk T], the statement of the
    round-trip properties C01/C02 for one type); F01 is the class where that premise is false. *)
 From PV Require Import Base.Bytes Model.Types Model.Enc Model.Dec Model.OpenType Proofs.OpenType Proofs.OpenTypeWitness.
+From PV Require Import Model.OpenTypeDef Proofs.OpenTypeDef.
 Local Open Scope N_scope.
 
 (* ---- with resolution off, or an unmapped governing value, the member holds exactly the complete
@@ -253,3 +254,54 @@ Example C18_example_repaired_F50_F51 :
          = Ok (DV (TSet [(Req, TInt); (Req, TSeqOf TOcts)]) (VRec [Some (VInt 2); Some (VList [VOcts [97]])]), [])).
 Proof. split; [exact (conj (proj1 (proj2 f50_repaired)) (proj1 (proj2 (proj2 f50_repaired)))) | exact f51_repaired]. Qed.
 Print Assumptions C18_example_repaired_F50_F51.
+
+(* ---- governing member declared DEFAULT or OPTIONAL (Model/OpenTypeDef.v: dec_open_d, the decoder the
+        harness compares with).  The theorems above speak of a governing member that was decoded; there
+        the extended second pass is the same function ---- *)
+Theorem C18_governing_present_unchanged : forall c allow T fs gi oi dflt override vs g,
+  nth gi vs None = Some g ->
+  second_pass_d c allow T fs gi oi dflt override vs = second_pass c allow T fs gi oi dflt override vs.
+Proof. exact second_pass_d_present. Qed.
+Print Assumptions C18_governing_present_unchanged.
+
+(* a DEFAULT governing member whose value equals the default is not in the encoding (no codec emits it):
+   the open member is resolved exactly as in the record that holds the default explicitly *)
+Theorem C18_defaulted_governing_as_explicit : forall c allow T fs gi oi dflt override vs p ft fv d gT,
+  nth_error fs oi = Some (p, ft) -> nth oi vs None = Some fv ->
+  nth_error fs gi = Some (Def d, gT) -> nth gi vs None = None ->
+  second_pass_d c allow T fs gi oi dflt override vs
+  = second_pass c allow T fs gi oi dflt override (set_nth gi (Some d) vs).
+Proof. exact second_pass_d_defaulted. Qed.
+Print Assumptions C18_defaulted_governing_as_explicit.
+
+(* the value the decoder resolves by is the governing value of the specification (explicit, else the default) *)
+Theorem C18_governing_value_is_effective : forall fs gi vs pg gT g,
+  nth_error fs gi = Some (pg, gT) -> gov_value fs gi vs = Ok g -> effective_gov pg (nth gi vs None) = Some g.
+Proof. exact gov_value_is_effective. Qed.
+Print Assumptions C18_governing_value_is_effective.
+
+(* an OPTIONAL governing member left out: there is no governing value; the decoder raises once resolution is on *)
+Theorem C18_no_governing_value : forall c allow T fs gi oi dflt override vs p ft fv gT,
+  nth_error fs oi = Some (p, ft) -> nth oi vs None = Some fv ->
+  nth_error fs gi = Some (Opt, gT) -> nth gi vs None = None ->
+  second_pass_d c allow T fs gi oi dflt override vs = Err EMalformed.
+Proof. exact second_pass_d_no_governing_value. Qed.
+Print Assumptions C18_no_governing_value.
+
+Example C18_example_defaulted_governing :
+  enc_open BER true 0 TD1 1 (VRec [Some (VInt 1); None]) true [(Pt, pt)] = Ok [48;8;48;6;2;1;3;2;1;252]
+  /\ enc_open BER true 0 TD1 1 (VRec [None; None]) true [(Pt, pt)] = Ok [48;8;48;6;2;1;3;2;1;252]
+  /\ expected_type (Def (VInt 1)) None md [] true = Some Pt
+  /\ dec_open_d BER TD1 0 1 md [] true [48;8;48;6;2;1;3;2;1;252]
+     = Ok (DV (TSeq [(Def (VInt 1), TInt); (Req, Pt)]) (VRec [Some (VInt 1); Some pt]), [])
+  /\ dec_open_d BER TD1 0 1 md [] false [48;8;48;6;2;1;3;2;1;252]
+     = Ok (DV TD1 (VRec [None; Some (VAny [48;6;2;1;3;2;1;252])]), []).
+Proof. exact ex_defaulted_ber. Qed.
+Print Assumptions C18_example_defaulted_governing.
+
+Example C18_example_defaulted_governing_set_of_der :
+  enc_open DER true 0 TD2 1 (VRec [Some (VInt 1); None]) true [(Pt, pt)] = Ok [49;12;49;10;163;8;48;6;2;1;3;2;1;252]
+  /\ dec_open_d DER TD2 0 1 md [] true [49;12;49;10;163;8;48;6;2;1;3;2;1;252]
+     = Ok (DV (TSet [(Def (VInt 1), TInt); (Req, TSetOf Pt)]) (VRec [Some (VInt 1); Some (VList [pt])]), []).
+Proof. exact ex_defaulted_set_of_der. Qed.
+Print Assumptions C18_example_defaulted_governing_set_of_der.
